@@ -1,6 +1,6 @@
 import FlytModel.Generated.IR
 import FlytModel.Expected.IR
-/-! The translation of `BatchNode_Prep` from the CURRENT source is, term for term, the IR the refinement theorems are about. -/
+/-! The translation of `BatchNode_Prep` from the CURRENT source is, term for term, the expected IR. -/
 namespace Flyt.Tie
 theorem BatchNode_Prep : Flyt.Generated.IR.BatchNode_Prep = Flyt.Expected.IR.BatchNode_Prep := rfl
 end Flyt.Tie
